@@ -72,6 +72,12 @@ static spif_charptr_t *ng_strlist(void) {
     return l;
 }
 
+static spifmem_memrec_t *ng_memrec(void) { static spifmem_memrec_t m; m.cnt = 0; m.ptrs = NULL; return &m; }
+static spif_ptr_t ng_ctx_handler(spif_charptr_t line, spif_ptr_t state) { (void) line; return state; }
+static spif_charptr_t ng_conf_builtin(spif_charptr_t arg) { return arg; }
+static spif_thread_data_t ng_thread_func(spif_thread_data_t d) { return d; }
+static char **ng_argv(void) { static char *v[] = { (char *) "prog", (char *) "word", NULL, NULL, NULL, NULL, NULL, NULL, NULL, NULL, NULL }; return v; }
+
 /* ---- snapshots of the arguments that are NOT the NULL one ----------------------------------------------------- */
 static char ng_snapbuf[2][1 << 16];
 static size_t ng_snaplen[2];
